@@ -514,6 +514,12 @@ class Driver(object):
             # earlier sources of the same batch, targets that are all known, empty target lists
             data, seen = [], set()
             known = [l for l, _ in self.last_pages] or [u.page()]
+            if self.profile.get("crawlknown") and len(known) >= 2:
+                # a batch over known pages only: links and crawled marks, no page and no webentity created
+                data = []
+                for s_ in rng.sample(known, min(len(known), rng.choice([1, 2, 3]))):
+                    data.append((s_, [rng.choice(known) for _ in range(rng.choice([1, 2, 2, 3]))]))
+                return {"op": name, "data": data}
             crawled = [l for l, c in self.last_pages if c] or known
             if rng.random() < 0.3:
                 # a typical crawl shape: a hub links to an already crawled page X and to pages
